@@ -199,6 +199,32 @@ def _flag_value_blocks(fn, local, depth=3):
     return out
 
 
+def _variant_value_blocks(fn, local, depth=3):
+    """{variant name: [blocks]} where an enum-typed local is assigned an aggregate of that variant (directly or by copying another
+    such local); None if it has any other definition"""
+    out = {}
+    if _call_defs(fn).get(local):
+        return None
+    defs = _assign_defs(fn).get(local, [])
+    if not defs:
+        return None
+    for (b, st) in defs:
+        if st["pl"]["p"]:
+            continue
+        rv = st["rv"]
+        if rv["k"] == "aggr" and rv.get("ak") == "adt" and rv.get("variant"):
+            out.setdefault(rv["variant"], []).append(b)
+        elif depth > 0 and rv["k"] == "use" and rv["op"]["k"] in ("copy", "move") and not rv["op"]["pl"]["p"]:
+            sub = _variant_value_blocks(fn, rv["op"]["pl"]["l"], depth - 1)
+            if sub is None:
+                return None
+            for k_, v_ in sub.items():
+                out.setdefault(k_, []).extend(v_)
+        else:
+            return None
+    return out
+
+
 def guards_dominating(fn, bb, through_flags=True, _depth=2):
     """all (switch_bb, label, target) edges whose target dominates bb (edge-sensitive guards).
     With through_flags, a guard that tests a constant-valued flag (`matches!(..)`, `let ok = a && b;`, the result of an inlined
@@ -210,6 +236,28 @@ def guards_dominating(fn, bb, through_flags=True, _depth=2):
     for (sw, lab, tgt) in res:
         t = fn.blocks[sw]["term"]
         d = t["discr"]
+        info = switch_info(fn, sw)
+        if info and info[0] == "discr" and not [e for e in info[1]["pl"]["p"] if e != "*"]:
+            # `if let Some(x) = tmp` where tmp was assigned `Some(..)` / `None` in the arms of an earlier match (the result of an
+            # inlined helper such as `fn merged(..) -> Option<Token>`): the guards common to all `Some` assignments hold here
+            names = {dv: n for dv, n in info[1].get("variants", [])}
+            want_v = names.get(lab)
+            if want_v is None and lab == "otherwise":
+                listed = [names.get(l2) for l2 in info[2] if l2 != "otherwise"]
+                rest = [n for n in names.values() if n not in listed]
+                want_v = rest[0] if len(rest) == 1 else None
+            if want_v is not None:
+                vb = _variant_value_blocks(fn, info[1]["pl"]["l"])
+                blocks = (vb or {}).get(want_v)
+                if blocks:
+                    common = None
+                    for b in blocks:
+                        gs = set(guards_dominating(fn, b, True, _depth - 1))
+                        common = gs if common is None else (common & gs)
+                    for g in sorted(common or ()):
+                        if g not in res and g not in extra:
+                            extra.append(g)
+            continue
         if d.get("ty") != "bool" or d["k"] not in ("copy", "move") or d["pl"]["p"]:
             continue
         vb = _flag_value_blocks(fn, d["pl"]["l"])
